@@ -12,6 +12,8 @@ CORRESPONDENCE (1) the model's twins of the library primitives against numpy/sci
                signal (hilbert / nht / quad, smoothing on and off), tolerance 1e-9.
 ORACLE         on the implementation only: shapes; 0 <= phase < 2*pi on every output; IF == sample_rate/(2 pi) * gradient of
                the unwrapped phase; scale invariance for c = 2^k (bit-exact, else 1e-9); freq -> phase -> freq round trip;
+               IMF sets ending in a non-oscillatory residual column (ramp / trend / constant / zero, |values| > 1) next to
+               sinusoid columns: finite phase in [0, 2pi), derivative, shapes, 2^k invariance (quad: oscillatory columns);
                accuracy sweep on pure sinusoids (methods x sample rates x frequencies x amplitudes x phases x 1-3 columns,
                interior 80 %).
 PARTIAL        the accuracy clause is NOT proved (it is a statement about scipy's FFT Hilbert transform and the envelope
@@ -243,6 +245,9 @@ def call_ft(x2d, sr, method, smooth):
 
 
 # ---------------------------------------------------------------------------------------------- oracle pieces
+SITE_NAN = 'frequency_transform non-finite phase'
+
+
 def range_fail(IP):
     bad = ~((IP >= 0) & (IP < TWOPI))
     if np.any(bad):
@@ -252,18 +257,18 @@ def range_fail(IP):
 
 
 def derivative_fail(IP, IF, sr):
-    """IF == sr/(2 pi) * gradient(U), U recovered from the returned phase (clean signals: |steps| << pi)."""
-    U = np.unwrap(IP, axis=0)
-    d = np.abs(np.diff(U, axis=0))
-    if d.size and d.max() > 2.5:
-        return None            # not a clean advancing phase: U cannot be recovered from IP; nothing demanded here
-    exp = np.gradient(U, axis=0) * sr / TWOPI
-    err = np.abs(IF - exp)
-    tol = 1e-9 * (np.abs(exp).max() + sr)
-    if np.any(err > tol):
-        k = np.argwhere(err > tol)[0]
-        return 'IF[%s] = %r but sample_rate/(2 pi) * gradient(unwrapped phase) = %r' % (
-            k.tolist(), float(IF[tuple(k)]), float(exp[tuple(k)]))
+    """IF == sr/(2 pi) * gradient(U), U recovered from the returned phase, column by column (clean signals: |steps| << pi)."""
+    for j in range(IP.shape[1]):
+        U = np.unwrap(IP[:, j])
+        d = np.abs(np.diff(U))
+        if d.size and d.max() > 2.5:
+            continue           # not a clean advancing phase: U cannot be recovered from IP; nothing demanded of this column
+        exp = np.gradient(U) * sr / TWOPI
+        err = np.abs(IF[:, j] - exp)
+        tol = 1e-9 * (np.abs(exp).max() + sr)
+        if not np.all(err <= tol):          # written so that a nan frequency fails
+            k = int(np.argwhere(~(err <= tol))[0][0])
+            return 'IF[%d, %d] = %r but sample_rate/(2 pi) * gradient(unwrapped phase) = %r' % (k, j, float(IF[k, j]), float(exp[k]))
     return None
 
 
@@ -276,6 +281,9 @@ def oracle_ft(x2d, sr, method, smooth):
     for nm, a in (('phase', IP), ('frequency', IF), ('amplitude', IA)):
         if np.shape(a) != x2d.shape:
             return ('frequency_transform shapes', '%s has shape %s for an input of shape %s' % (nm, np.shape(a), x2d.shape))
+    if np.all(np.isfinite(x2d)) and not np.all(np.isfinite(IP)):
+        k = np.argwhere(~np.isfinite(IP))[0]
+        return (SITE_NAN, 'phase[%s] = %r for a finite input column: not a phase in [0, 2pi)' % (k.tolist(), float(IP[tuple(k)])))
     m = range_fail(IP)
     if m:
         return (SITE_RANGE, m)
@@ -285,20 +293,81 @@ def oracle_ft(x2d, sr, method, smooth):
     return None
 
 
-def scale_fail(x2d, sr, method, smooth, k):
+def scale_fail(x2d, sr, method, smooth, k, cols=None):
+    """c = 2^k: phase and frequency unchanged, amplitude times c, on the columns `cols` (default all)."""
     c = 2.0 ** k
     a = call_ft(x2d, sr, method, smooth)
     b = call_ft(x2d * c, sr, method, smooth)
+    if cols is not None:
+        a = [v[:, cols] for v in a]
+        b = [v[:, cols] for v in b]
     exact = np.array_equal(a[0], b[0]) and np.array_equal(a[1], b[1]) and np.array_equal(a[2] * c, b[2], equal_nan=True)
     if exact:
         return None, True
-    if np.any(cdist(a[0], b[0]) > 1e-9):
-        return 'phase changes under rescaling by 2^%d: max circular difference %.3g' % (k, cdist(a[0], b[0]).max()), False
-    if np.any(np.abs(a[1] - b[1]) > 1e-9 * (np.abs(a[1]).max() + 1)):
-        return 'frequency changes under rescaling by 2^%d: max difference %.3g' % (k, np.abs(a[1] - b[1]).max()), False
+    if not np.all(cdist(a[0], b[0]) <= 1e-9):
+        return 'phase changes under rescaling by 2^%d: max circular difference %.3g' % (k, np.nanmax(cdist(a[0], b[0]))), False
+    if not np.all(np.abs(a[1] - b[1]) <= 1e-9 * (np.abs(a[1]).max() + 1)):
+        return 'frequency changes under rescaling by 2^%d: max difference %.3g' % (k, np.nanmax(np.abs(a[1] - b[1]))), False
     if not np.allclose(a[2] * c, b[2], rtol=1e-9, atol=0, equal_nan=True):
         return 'amplitude does not scale by 2^%d' % k, False
     return None, False
+
+
+# ---------------------------------------------------------------------------------------------- IMF sets with a residual
+# What the unchanged code returns for a non-oscillatory column (monotone ramp, slow trend, constant, zero - the residual
+# at the end of a sift) was established first: for all three methods phase and frequency are finite, the phase lies in
+# [0, 2pi) and IF is the scaled gradient of the unwrapped phase; the amplitude is finite for 'hilbert' and nan for
+# 'nht'/'quad' (no upper envelope).  Phase/frequency are invariant under 2^k for 'hilbert' and 'nht'; for 'quad' a column
+# without an envelope is only clipped, not normalised, so the invariance is demanded of the oscillatory columns only
+# (the guard of Prop_C09.scale_invariance).
+NONOSC = ['ramp', 'negramp', 'trend', 'const', 'const_small', 'zero', 'cross', 'hump']
+
+
+def nonosc_column(rs, n, kind):
+    t = np.arange(n) / float(n)
+    if kind == 'ramp':
+        return rs.uniform(1.1, 3) + rs.uniform(0.5, 6) * t
+    if kind == 'negramp':
+        return -(rs.uniform(1.1, 3) + rs.uniform(0.5, 6) * t)
+    if kind == 'trend':
+        return rs.choice([-1, 1]) * (rs.uniform(1.2, 4) + rs.uniform(0.2, 2) * t ** 2)
+    if kind == 'const':
+        return np.full(n, rs.choice([-1, 1]) * rs.uniform(1.5, 20))
+    if kind == 'const_small':
+        return np.full(n, rs.uniform(0.05, 0.9))
+    if kind == 'zero':
+        return np.zeros(n)
+    if kind == 'cross':
+        return -rs.uniform(1.5, 3) + rs.uniform(4, 8) * t          # monotone through zero, beyond +-1 at both ends
+    return rs.uniform(1.5, 4) * np.sin(np.pi * t) + rs.uniform(0.1, 1.2)   # a single hump: one maximum, no envelope
+
+
+def gen_mixed(rs, i):
+    """1-3 columns, at least one of them non-oscillatory, sinusoid-like IMFs first (the layout of a sift output)."""
+    n = int(rs.choice([64, 128, 256, 500]))
+    ncol = int(rs.randint(1, 4))
+    nres = 1 if (ncol == 1 or rs.rand() < 0.8) else 2
+    cols, non = [], []
+    for j in range(ncol):
+        if j >= ncol - nres:
+            cols.append(nonosc_column(rs, n, NONOSC[(i + j) % len(NONOSC)]))
+            non.append(j)
+        else:
+            cols.append(imf_like(rs, n, ['sin', 'amfm', 'noise'][int(rs.randint(0, 3))]))
+    return np.array(cols).T, non
+
+
+def mixed_fail(x, non, sr, method, smooth, k):
+    """(site, message) or None; property clauses only."""
+    r = oracle_ft(x, sr, method, smooth)
+    if r:
+        return r
+    cols = [j for j in range(x.shape[1]) if not (method == 'quad' and j in non)]
+    if cols:
+        msg, _ = scale_fail(x, sr, method, smooth, k, cols=cols)
+        if msg:
+            return ('frequency_transform scale invariance', '%s: %s' % (method, msg))
+    return None
 
 
 def roundtrip_fail(f, sr):
@@ -595,6 +664,30 @@ def run(ctx):
             violation('frequency_transform scale invariance', '%s: %s' % (method, msg), inp)
     ctx.extra['scale_invariance'] = dict(cases=nsc, bit_exact=n_exact)
 
+    # ---- oracle (b2): IMF sets that end in a non-oscillatory column (sift residual), all methods
+    nmix = 48 if q else 900
+    for i in range(nmix):
+        if i == 0:          # fixed corpus: two tones and a monotone residual beyond +-1
+            tt = np.arange(256) / 256.0
+            x, non = np.c_[np.cos(TWOPI * 20 * tt), 0.5 * np.cos(TWOPI * 7 * tt + 1), 1.5 + 3 * tt], [2]
+        else:
+            x, non = gen_mixed(rs, i)
+        method = METHODS[i % 3] if i else 'quad'
+        smooth = 5 if (i // 3) % 2 == 0 else None
+        sr = float(rs.choice([128.0, 250.0, 1000.0]))
+        k = int(rs.randint(-8, 9))
+        inp = dict(kind='mixed', x=[[float(v).hex() for v in col] for col in x.T], nonosc=non, sample_rate=sr, method=method,
+                   smooth=smooth, k=k)
+        ctx.count(('mixed', i, method, smooth, k), True, 'residual-%s' % method)
+        ctx.tol_cmp += 1
+        try:
+            r = mixed_fail(x, non, sr, method, smooth, k)
+        except Exception as e:
+            r = ('frequency_transform', 'raised %s: %s' % (type(e).__name__, e))
+        if r:
+            violation(r[0], r[1], inp, tags=dict(corner='wrap-2pi') if r[0] == SITE_RANGE else None)
+    ctx.sample(dict(residual_case='cos(20 cycles), 0.5 cos(7 cycles), ramp 1.5..4.5; 256 samples; quad'))
+
     # ---- oracle (c): round trip
     nrt = 60 if q else 1500
     for i in range(nrt):
@@ -677,6 +770,11 @@ def replay(rec):
         if r is None:
             msg, _ = scale_fail(x, i['sample_rate'], i['method'], i['smooth'], i['k'])
             r = msg
+        print(r)
+        return r is not None
+    if kind == 'mixed':
+        x = np.array([unhex(c) for c in i['x']]).T
+        r = mixed_fail(x, i['nonosc'], i['sample_rate'], i['method'], i['smooth'], i['k'])
         print(r)
         return r is not None
     if kind == 'roundtrip':
